@@ -140,4 +140,15 @@ CHECKS = {
         quick=dict(stages=[st(3000, timeout=900)]),
         thorough=dict(stages=[st(40000, shards=16, timeout=3000)]),
     ),
+    "C17": dict(
+        pkg="c17", level="exploration",
+        pre=[dict(kind="harness_main", repo_dir="cmd/ow-single", pkg="owsingle", out="ow-single", env="VERIF_OWSINGLE")],
+        rule="(a) rapid-generated structured requests (any non-dimensioned catalogued model, any subset/superset/order of parameters and inputs, equal series lengths, values in domain): in-process with all parameters present and both encodings (split / nested), and through the real ow-single binary (child process, stdin/stdout) with subsets so that defaults are used; oracle: decoded outputs/states bit-equal (after the NaN/+Inf/-Inf string mapping) to a direct one-cell run with defaults / zeros, every missing parameter and input named by a log entry and nothing present reported missing. "
+             "(b) robustness through the child process: grammar-generated requests (name only, unknown / missing / mistyped name, unequal lengths, wrong types, hostile numbers, truncated / trailing bytes, arbitrary bytes): exit status 0, stdout exactly one JSON document, a non-runnable request answered with a non-empty log and no outputs. "
+             "(c) JsonSafeArray on generated float64 views of rank 1..4 (sliced, stepped) with NaN/+-Inf sprinkled, every shiftDim, against nesting computed on the extensional model. Non-trivial = (a) >=1 missing parameter and >=1 missing input (or >1 input series in-process), (b) request that is valid JSON but not runnable, or runnable hostile request, (c) rank >= 3 or stepped view; distinct = distinct case",
+        assumptions=["the request is the first JSON value of the input stream (bytes after it are ignored by the streaming decoder; not flagged)",
+                     "supplied States are ignored by the runner (documented TODO in the code): the direct run uses the model's own initial states"],
+        quick=dict(stages=[st(1500, run="TestJsonSafeArray|TestRunnerInProcess", timeout=900), st(800, run="TestRunnerChildProcess", timeout=900)]),
+        thorough=dict(stages=[st(10000, shards=8, run="TestJsonSafeArray|TestRunnerInProcess", timeout=3000), st(4000, shards=8, run="TestRunnerChildProcess", timeout=3000)]),
+    ),
 }
